@@ -157,8 +157,11 @@ func (r *Run) opAuthorize(st Step) {
 	if st.p("empty_sub") != "" {
 		con.Subject = ""
 	}
-	if alg := st.p("id_alg"); alg != "" {
-		con.Extra = map[string]interface{}{}
+	if st.p("extra_reserved") != "" {
+		// a session whose extra claims try to override the reserved introspection members
+		con.Extra = map[string]interface{}{"client_id": "evil-client", "scope": "admin everything", "sub": "evil-subject", "exp": 4102444800, "aud": []string{"https://evil.example"},
+			"iat": 1, "username": "evil-user", "harmless": "kept"}
+		r.probe("session-extras-with-reserved-names")
 	}
 	// OpenID Connect request objects (C13): parameters travel in a signed JWT, inline or fetched over the simulated network
 	roState, roVerdict := "", Unspec
